@@ -76,6 +76,40 @@ def _rowsum_blocks(blocks):
     return blocks.sum(axis=1)
 
 
+def _rowmax_block(block):
+    return block.max(axis=-1)
+
+
+def _rowsum_list_only(blocks):
+    # concatenate left at None: the function is handed the LIST of blocks along the contracted index
+    if not isinstance(blocks, list):
+        raise TypeError("a contraction without concatenate=True was handed one concatenated block")
+    return sum(b.sum(axis=1) for b in blocks) + 1000 * len(blocks)
+
+
+def _rowmax_one_block(block):
+    # concatenate=True: the function is handed ONE concatenated block
+    if isinstance(block, list):
+        raise TypeError("a contraction with concatenate=True was handed a list of blocks")
+    return block.max(axis=-1) + block.shape[-1]
+
+
+def _matmul_block(p, q):
+    return p @ q
+
+
+def _root(name, data):
+    """2x2-block array whose single layer is a plain task layer (no dependencies)"""
+    import numpy as np
+
+    import dask.array as da
+    from dask._task_spec import Task
+    from dask.highlevelgraph import HighLevelGraph, MaterializedLayer
+
+    lay = MaterializedLayer({(name, i, j): Task((name, i, j), np.array, data[2 * i:2 * i + 2, 2 * j:2 * j + 2].tolist()) for i in range(2) for j in range(2)})
+    return da.Array(HighLevelGraph({name: lay}, {name: set()}), name, ((2, 2), (2, 2)), dtype=float)
+
+
 def cull_sweep(tier, seed=0):
     import numpy as np
 
@@ -112,6 +146,13 @@ def cull_sweep(tier, seed=0):
         yield "two-contractions", sp * 2 + tq
         q2 = da.from_array(np.arange(16).reshape(4, 4) + 5, chunks=(2, 2), name="q2-base")
         yield "two-contractions-2-vs-3-blocks", da.blockwise(_rowsum_blocks, "i", q2, "ij", dtype=q2.dtype) - tq
+        # an elementwise layer over one list-style contraction (concatenate left at None) and one concatenate=True contraction
+        xf = da.from_array(np.arange(24.0).reshape(4, 6), chunks=(2, 3), name="xf-base")
+        yield "mixed-concatenate", da.blockwise(_rowsum_list_only, "i", xf, "ij", dtype=xf.dtype) + da.blockwise(_rowmax_one_block, "i", xf, "ij", concatenate=True, dtype=xf.dtype)
+        yield "mixed-concatenate-reversed", da.blockwise(_rowmax_one_block, "i", xf, "ij", concatenate=True, dtype=xf.dtype) * 2 - da.blockwise(_rowsum_list_only, "i", xf, "ij", dtype=xf.dtype)
+        # plain task layers without dependencies under two levels of blockwise layers (what fuse_roots folds, twice)
+        rx, ry, rw = _root("rx", np.arange(16.0).reshape(4, 4)), _root("ry", np.arange(16.0).reshape(4, 4) + 1), _root("rw", np.arange(16.0).reshape(4, 4) * 3)
+        yield "roots-two-levels", da.blockwise(_matmul_block, "ij", rx, "ik", ry, "kj", concatenate=True, dtype=float) + rw
 
     with dask.config.set(scheduler="sync"):
         for name, arr in stacks():
@@ -159,6 +200,22 @@ def cull_sweep(tier, seed=0):
                         got = dask.get(dict(opt), list(ks))
                         if any(not np.array_equal(a, want_all[k]) for a, k in zip(got, ks)):
                             msg = "optimize_blockwise (layer fusion) changed the computed values"
+                    if msg is None:
+                        # fuse_roots, on the layers in the order given, in dependency-first order and in the order
+                        # HighLevelGraph.merge leaves them in; before and after blockwise fusion
+                        from dask.blockwise import fuse_roots
+                        topo = HighLevelGraph({n: hlg.layers[n] for n in hlg._toposort_layers()}, hlg.dependencies)
+                        rev = HighLevelGraph({n: hlg.layers[n] for n in reversed(hlg._toposort_layers())}, hlg.dependencies)
+                        for label, g0 in (("as given", hlg), ("dependency-first layer order", topo), ("dependents-first layer order", rev), ("after blockwise fusion", opt)):
+                            fr = fuse_roots(g0, list(ks))
+                            try:
+                                got = dask.get(dict(fr), list(ks))
+                            except Exception as e:  # noqa
+                                msg = f"fuse_roots ({label}): the fused graph cannot be computed: {type(e).__name__}: {e}"
+                                break
+                            if any(not np.array_equal(a, want_all[k]) for a, k in zip(got, ks)):
+                                msg = f"fuse_roots ({label}) changed the computed values"
+                                break
                     if msg is None:
                         # the FUSED graph culled to the keys: nothing needed is dropped, values unchanged, and every
                         # fused blockwise layer reports the dependencies of its materialised tasks
@@ -239,6 +296,6 @@ def cull_sweep(tier, seed=0):
                 fails.append(rtc.Failure("HighLevelGraph.cull", {"stack": "legacy:" + gname, "keys": [str(k) for k in ks][:6]}, "ensures", "C10-cull-and-fusion-sound", msg))
                 break
     return {"function": "dask/highlevelgraph.py:cull, dask/blockwise.py:Blockwise.cull/optimize_blockwise (real code, NumPy values)", "bounded": True,
-            "bound": {"layer stacks": 10, "legacy graphs": "2 hand-written high-level graphs with list/dict-of-keys values, aliases, two branches: every 1- and 2-key subset", "fused graph": "culled again, fused Blockwise.cull dependencies checked", "key subsets per stack": 5 if tier == "quick" else 11, "double cull": True},
+            "bound": {"layer stacks": 13, "fuse_roots": "on every stack, 3 layer orders + after blockwise fusion", "mixed concatenate settings": True, "legacy graphs": "2 hand-written high-level graphs with list/dict-of-keys values, aliases, two branches: every 1- and 2-key subset", "fused graph": "culled again, fused Blockwise.cull dependencies checked", "key subsets per stack": 5 if tier == "quick" else 11, "double cull": True},
             "cases": cases, "distinct_nontrivial": cases, "failures_found": len(fails), "wall_s": round(time.time() - t0, 2),
             "samples": [{"native_case": {"stack": "elemwise-transpose-sum", "keys": "half of the output blocks"}}], "failures": fails[:5]}
